@@ -148,6 +148,9 @@ def step (s : St) : List String → St × String
   | ["observe"] => (s, showState s.st)
   -- the harness re-uses symbol objects in this case; invisible to the model (symbols are ids)
   | ["mode", "reuse"] => (s, "ok")
+  -- the harness builds some one-to-one nodes as a cluster around the node in this case; the table
+  -- sees the same ports, invisible to the model
+  | ["mode", "cluster"] => (s, "ok")
   -- the harness builds its table from several TableOptions / adds and removes hooks: the model has
   -- one notification per activation, whatever the number of registered hooks
   | "mode" :: "opts" :: _ => (s, "ok")
